@@ -61,6 +61,7 @@ def run(chk: Check) -> None:
     run_literal_strings_encodable(chk, ix)
     run_loop_else_outside_loop(chk, ix)
     run_single_typevartuple(chk, ix)
+    run_unpacked_item_asserts(chk, ix)
 
     r1 = chk.rule("R20.1", "every loop that re-queues deferred work has a per-iteration counter compared with a constant bound that exits the loop; type-checker deferral is limited by pass_num < last_pass", floor=7)
     n_loops = 0
@@ -862,3 +863,45 @@ def run_single_typevartuple(chk: Check, ix) -> None:
             r.violation(key, f.loc(a), "two type-variable lists are merged and handed on as they are: `class D[*Ts](Tuple[*Us])` (Us an old-style TypeVarTuple) gives the class two TypeVarTuples and TypeInfo.add_type_vars asserts (INTERNAL ERROR)")
     if n < 1:
         raise AnalysisError("clean_up_bases_and_infer_type_variables: the merge of declared and inferred type variables was not found")
+
+
+def run_unpacked_item_asserts(chk: Check, ix) -> None:
+    """R20.18: the variadic item of a tuple is asserted to be a `builtins.tuple` instance only after the TypeVarTuple case."""
+    r18 = chk.rule("R20.18", "a normalised UnpackType holds either a TypeVarTupleType (`*Ts`) or an Instance of builtins.tuple (`*tuple[X, ...]`); both come straight from annotations. Across mypy/ the code that looks inside one first deals with the TypeVarTuple case (`isinstance(unpacked, TypeVarTupleType)` or the same test on `<unpack>.type`, usually replacing it by its upper bound) and then asserts the Instance case. Every `assert isinstance(V, Instance)...` on a V assigned from get_proper_type(<unpack>.type) follows such a test in its function (sites where a caller has normalised the item are tabled): otherwise the assertion is reachable from `tuple[int, *Ts]` in user code and the build ends in INTERNAL ERROR", floor=8)
+    n = 0
+    for mn, m in sorted(ix.modules.items()):
+        if not mn.startswith("mypy.") or mn.startswith(("mypy.test", "mypyc")):
+            continue
+        for f in list(m.functions.values()) + [mm for c in m.classes.values() for mm in c.methods.values()]:
+            # V = get_proper_type(<E>.type)
+            assigned: dict[str, list[ast.Assign]] = {}
+            for a in ast.walk(f.node):
+                if isinstance(a, ast.Assign) and len(a.targets) == 1 and isinstance(a.targets[0], ast.Name) and isinstance(a.value, ast.Call) and call_name(a.value) == "get_proper_type" and a.value.args and isinstance(a.value.args[0], ast.Attribute) and a.value.args[0].attr == "type":
+                    assigned.setdefault(a.targets[0].id, []).append(a)
+            if not assigned:
+                continue
+            src = norm(f.node)
+            if "UnpackType" not in src:
+                continue
+            for a in ast.walk(f.node):
+                if not isinstance(a, ast.Assert):
+                    continue
+                for v, defs in assigned.items():
+                    if not any(isinstance(c, ast.Call) and call_name(c) == "isinstance" and len(c.args) == 2 and norm(c.args[0]) == v and norm(c.args[1]) == "Instance" for c in ast.walk(a.test)):
+                        continue
+                    d = max((x for x in defs if x.lineno <= a.lineno), key=lambda x: x.lineno, default=None)
+                    if d is None:
+                        continue
+                    owner = norm(d.value.args[0])
+                    n += 1
+                    key = f"{mn.removeprefix('mypy.')}.{f.name}: `{norm(a.test)[:60]}` comes after the TypeVarTuple case"
+                    handled = False
+                    for c in ast.walk(f.node):
+                        if isinstance(c, ast.Call) and call_name(c) == "isinstance" and len(c.args) == 2 and "TypeVarTupleType" in norm(c.args[1]) and norm(c.args[0]) in (v, owner) and c.lineno <= a.lineno:
+                            handled = True
+                    if handled:
+                        r18.ok(key, f.loc(a))
+                    else:
+                        r18.violation(key, f.loc(a), f"`{v}` is the content of an UnpackType and no earlier test in the function handles `TypeVarTupleType`: for `tuple[int, *Ts]` the assertion fails (INTERNAL ERROR, exit 2; the daemon dies)")
+    if n < 8:
+        raise AnalysisError(f"only {n} Instance assertions on unpacked variadic items found")
